@@ -45,24 +45,5 @@ def dag_world(rng, wid, modroot="w", stats=None, **kw):
         W.add(pd, "client.go", Decl("Use", ["func Use() {", "\t/*@%s%s0:client-byname*/ _ = d.ByName()" % (wid, v), "\t/*@%s%s1:client-paths*/ _ = d.Paths()" % (wid, v),
                                             "\t/*@%s%s2:client-internal*/ _ = d.Internal()" % (wid, v), "}"]))
         W.pkgs[pd]["no_move"] = True
-    # a package that exists in two type-checked instances when tests are loaded: annotations declared in its in-package
-    # test file, used by its external test package, while another package imports the plain instance
-    W.add_pkg("tv/a", "a")
-    W.add_file("tv/a", "a.go", [])
-    W.add("tv/a", "a.go", Decl("plain", ["type Plain struct{ P int }", "const Anchor = 0"]))
-    W.add_file("tv/a", "export_test.go", [])
-    W.add("tv/a", "export_test.go", Decl("Hid", ["type Hid struct{ F int }"], doc=["// @immutable", "// @constructor NewHid"]))
-    W.add("tv/a", "export_test.go", Decl("NewHid", ["func NewHid() *Hid { return &Hid{} }"]))
-    W.add("tv/a", "export_test.go", Decl("Guarded", ["func Guarded() int { return 1 }"], doc=["// @packageonly nobody"]))
-    W.pkgs["tv/a"]["no_move"] = True
-    W.add_pkg("tv/aext", "a_test")
-    W.pkgs["tv/aext"]["dir"] = "tv/a"
-    W.pkgs["tv/aext"]["no_move"] = True
-    W.add_file("tv/aext", "a_ext_test.go", ['"%s/tv/a"' % root])
-    W.add("tv/aext", "a_ext_test.go", Decl("extuse", ["func extuse(h *a.Hid) {", "\t/*@%stv0:tv-write*/ h.F = 1" % wid, "\t/*@%stv1:tv-lit*/ _ = a.Hid{}" % wid,
-                                                      "\t/*@%stv2:tv-pkgo*/ _ = a.Guarded()" % wid, "}"]))
-    W.add_pkg("tv/b", "b")
-    W.add_file("tv/b", "b.go", ['"%s/tv/a"' % root])
-    W.add("tv/b", "b.go", Decl("b", ["var B = a.Plain{}"]))
-    W.pkgs["tv/b"]["no_move"] = True
+    # (the package with two type-checked instances, tv/a, is part of every full world: worldgen.add_testvariant_tree)
     return W
